@@ -8,7 +8,11 @@ RULE = ("breadth-first search over ALL operation histories up to the length boun
         "function f(a, b=2, *, c=0) and on the method m(self, a, b=2) of a class with 2 instances), acached_per_instance "
         "(methods m(self, a, b=2) and n(self, a, *, c=0), in the thorough tier also p(self, a, b=2, *, c=0); 2 instances, "
         "`del instance; gc.collect()` as an operation, the next call on the slot creates a new instance), alazy_constant (ttl 0 and 5 under a scripted clock with operations clock += 0/4/6, "
-        "dirty(), and 'the next body run raises'). One operation = one call through fn(...) or fn.asynq(...).value() with "
+        "dirty(), and 'the next body run raises'; the clock starts at 1000000 and, as a recently started monotonic microsecond "
+        "clock would, at 1 and at ttl-1). PAIR configurations: ONE decorator object (the result of alru_cache(maxsize[, key_fn]) "
+        "with default key and normalising key_fn / acached_per_instance() / alazy_constant(ttl)) is applied to TWO functions or "
+        "methods (f,g / m,k / z,y) whose calls (reduced spelling menu x(a), x(a, b=1), x(a=a)) are interleaved in the histories, "
+        "the reference keeping one independent cache per decorated function. One operation = one call through fn(...) or fn.asynq(...).value() with "
         "a in {1,2}, b in {omitted, =default, other}, keyword-only c in {omitted, other} in every positional/keyword/mixed "
         "spelling (32 spellings of f, 16 of m, 12 of n), body returning at once or blocking on a harness batch item first "
         "(configuration), designated arguments (a=2 with b=1 resp. c=1) make the body raise. Every history is executed on fresh real "
@@ -28,15 +32,28 @@ ASSUMPTIONS = [
 ]
 TECHNIQUE = "explicit-state BFS over operation histories on the real objects vs reference state machine"
 
-DEPTH = {"quick": {"alru": 4, "acpi": 4, "alazy": 8}, "thorough": {"alru": 6, "acpi": 6, "alazy": 10}}
+DEPTH = {"quick": {"alru": 4, "acpi": 4, "alazy": 8, "alru-pair": 4, "acpi-pair": 4, "alazy-pair": 6},
+         "thorough": {"alru": 6, "acpi": 6, "alazy": 10, "alru-pair": 6, "acpi-pair": 5, "alazy-pair": 8}}
+CLOCK_STARTS = {0: (None, 1), 5: (None, 1, 4)}  # None = the large default start (1000000); small: 1 and ttl-1
+
+
+def depth_key(c):
+    return c["fam"] + ("-pair" if c.get("pair") else "")
 
 
 def configs(tier="quick"):
     """simplest first"""
     out = []
     for ttl in (0, 5):
+        for start in CLOCK_STARTS[ttl]:
+            for body in ("imm", "block"):
+                c = {"fam": "alazy", "ttl": ttl, "body": body}
+                if start is not None:
+                    c["start"] = start
+                out.append(c)
+    for ttl in (0, 5):
         for body in ("imm", "block"):
-            out.append({"fam": "alazy", "ttl": ttl, "body": body})
+            out.append({"fam": "alazy", "ttl": ttl, "body": body, "pair": True})
     for sig in ("ab", "ac") + (("abc",) if tier == "thorough" else ()):
         for body in ("imm", "block"):
             out.append({"fam": "acpi", "sig": sig, "body": body})
@@ -45,6 +62,14 @@ def configs(tier="quick"):
             for target in ("function", "method"):
                 for body in ("imm", "block"):
                     out.append({"fam": "alru", "target": target, "maxsize": maxsize, "key": key, "body": body})
+    # one decorator object applied to two functions / methods
+    for maxsize in (1, 2, 3):
+        for key in ("default", "norm"):
+            for target in ("function", "method"):
+                for body in ("imm", "block"):
+                    out.append({"fam": "alru", "target": target, "maxsize": maxsize, "key": key, "body": body, "pair": True})
+    for body in ("imm", "block"):
+        out.append({"fam": "acpi", "sig": "ab", "body": body, "pair": True})
     return out
 
 
@@ -54,7 +79,9 @@ def jobs(tier, seed):
     # inside each configuration is simplest-first (BFS by history length)
     def cost(c):
         if c["fam"] == "alazy":
-            return 0
+            return 5 if c.get("pair") else 0
+        if c.get("pair"):
+            return 500 + (c["body"] == "block") if c["fam"] == "acpi" else 6 + c["maxsize"]
         if c["fam"] == "acpi":
             return 30 + {"abc": 1000, "ab": 1, "ac": 0}[c["sig"]] + (c["body"] == "block")
         # default-key configurations are by far the largest while the known key defect multiplies the real cache states
@@ -64,7 +91,7 @@ def jobs(tier, seed):
     order = sorted(range(len(cfgs)), key=lambda i: (-cost(cfgs[i]), i))
     for i in order:
         c = cfgs[i]
-        yield {"cfg": c, "depth": DEPTH[tier][c["fam"]]}
+        yield {"cfg": c, "depth": DEPTH[tier][depth_key(c)]}
 
 
 def worker_init(env):
@@ -87,5 +114,7 @@ def finish(acc, tier):
                        "alru": "maxsize 1-3 x key {default, norm key_fn, coarse key_fn} x {function, method} x body {imm, block}",
                        "acpi": "signature {m(self,a,b=2), n(self,a,*,c=0)%s} x body {imm, block}, 2 instance slots"
                                % (", p(self,a,b=2,*,c=0)" if tier == "thorough" else ""),
-                       "alazy": "ttl {0,5} x body {imm, block}, clock steps {0,4,6}",
+                       "alazy": "ttl {0,5} x body {imm, block} x clock start {1000000, 1, ttl-1}, clock steps {0,4,6}",
+                       "pairs (one decorator object on two functions)": "alru maxsize 1-3 x key {default, norm key_fn} x {f+g, "
+                       "methods m+k of one instance} x body; acpi methods m+k x 2 instances x body; alazy z+y x ttl {0,5} x body",
                        "calling forms": ["fn(...)", "fn.asynq(...).value()"]}}
